@@ -675,6 +675,7 @@ Inductive op : Type :=
 | ONew (d : nat)
 | OSetName (s : nat) (name : bstr)
 | OSetText (s : nat) (text : bstr)
+| OSetTextSize (s : nat) (text : bstr) (size : Z)      (* xmpp_stanza_set_text_with_size; size <= |text| *)
 | OSetAttr (s : nat) (k v : bstr)
 | OSetNs (s : nat) (v : bstr)
 | OSetId (s : nat) (v : bstr)
@@ -728,6 +729,21 @@ Definition set_attr_op (st : pstate) (s : nat) (k v : bstr) : pstate * out :=
       end
   end.
 
+Definition set_text_op (st : pstate) (s : nat) (text : bstr) : pstate * out :=
+  match slot st s with
+  | None => (st, OSkip)
+  | Some id =>
+      match nth_error (p_heap st) id with
+      | None => (st, OSkip)
+      | Some n =>
+          match n_type n with
+          | NTag => (st, ORc XMPP_EINVOP)
+          | _ => (mkP (upd_node (p_heap st) id (fun n => mkN NText text (n_attrs n) (n_children n) (n_parent n)))
+                      (p_slots st), ORc XMPP_EOK)
+          end
+      end
+  end.
+
 Definition new_handle (st : pstate) (d : nat) (r : option tree) : pstate * out :=
   match r with
   | None => (mkP (p_heap st) (set_slot (p_slots st) d None), OHandle true)
@@ -764,20 +780,10 @@ Definition run_op (st : pstate) (o : op) : pstate * out :=
               end
           end
       end
-  | OSetText s text =>
-      match slot st s with
-      | None => (st, OSkip)
-      | Some id =>
-          match nth_error (p_heap st) id with
-          | None => (st, OSkip)
-          | Some n =>
-              match n_type n with
-              | NTag => (st, ORc XMPP_EINVOP)
-              | _ => (mkP (upd_node (p_heap st) id (fun n => mkN NText text (n_attrs n) (n_children n) (n_parent n)))
-                          (p_slots st), ORc XMPP_EOK)
-              end
-          end
-      end
+  | OSetText s text => set_text_op st s text
+  | OSetTextSize s text size =>
+      (* a fresh size+1 allocation, memcpy of the first size bytes, terminator: plain replacement *)
+      set_text_op st s (firstn (Z.to_nat size) text)
   | OSetAttr s k v => set_attr_op st s k v
   | OSetNs s v => set_attr_op st s xmlns_key v
   | OSetId s v => set_attr_op st s k_id v
